@@ -22,54 +22,92 @@ Qed.
 Lemma track_new_channel tb c : tr_channel (track_new tb c) = Z.max 0 (Z.min 15 c).
 Proof. unfold track_new. cbn [tr_channel]. destruct (Z.ltb_spec c 0); [lia|]. destruct (Z.gtb_spec c 15); lia. Qed.
 
+(* a pending octave-once is undone on the track it was written on (the old current track) and cleared *)
+Lemma settle_octave_once_law s :
+  let s1 := settle_octave_once s in
+  s_octave_once s1 = 0 /\ s_cur s1 = s_cur s /\ length (s_tracks s1) = length (s_tracks s) /\
+  (forall i, i <> s_cur s -> nth i (s_tracks s1) dtrk = nth i (s_tracks s) dtrk) /\
+  (cur_ok s -> cur_track s1 = tr_set_octave (cur_track s) (tr_octave (cur_track s) - s_octave_once s)) /\
+  s_set_octave_once (s_set_tracks s1 []) 0 = s_set_octave_once (s_set_tracks s []) 0 /\
+  (s_octave_once s = 0 -> s1 = s).
+Proof.
+  unfold settle_octave_once. destruct (Z.eqb_spec (s_octave_once s) 0) as [E|E].
+  - repeat split; try assumption; try reflexivity. intros Hc. rewrite E, Z.sub_0_r. destruct (cur_track s); reflexivity.
+  - split; [reflexivity|]. split; [reflexivity|].
+    split; [cbn [s_tracks s_set_octave_once upd_cur s_set_tracks]; apply upd_nth_length|].
+    split; [intros i Hi; cbn [s_tracks s_set_octave_once]; apply upd_cur_other; exact Hi|].
+    split; [|split; [reflexivity|intros E'; contradiction]]. intros Hc. unfold cur_track at 1. cbn [s_tracks s_cur s_set_octave_once].
+    exact (cur_track_upd_cur s (fun t => tr_set_octave t (tr_octave t - s_octave_once s)) Hc).
+Qed.
+
 Theorem change_cur_track_law s n :
   let s' := change_cur_track s n in
+  let s0 := settle_octave_once s in
   let old := length (s_tracks s) in
   s_cur s' = n /\ cur_ok s' /\
-  s_set_cur (s_set_tracks s' []) 0 = s_set_cur (s_set_tracks s []) 0 /\
-  s_tracks s' = s_tracks s ++ map (default_track (s_timebase s)) (seq old (S n - old)) /\
+  s_set_cur (s_set_tracks s' []) 0 = s_set_cur (s_set_tracks s0 []) 0 /\
+  s_tracks s' = s_tracks s0 ++ map (default_track (s_timebase s)) (seq old (S n - old)) /\
   length (s_tracks s') = Nat.max old (S n) /\
-  (forall i, (i < old)%nat -> nth i (s_tracks s') dtrk = nth i (s_tracks s) dtrk) /\
+  (forall i, (i < old)%nat -> nth i (s_tracks s') dtrk = nth i (s_tracks s0) dtrk) /\
+  (forall i, (i < old)%nat -> i <> s_cur s -> nth i (s_tracks s') dtrk = nth i (s_tracks s) dtrk) /\
   (forall i, (old <= i < length (s_tracks s'))%nat ->
      nth i (s_tracks s') dtrk = track_new (s_timebase s) (Z.of_nat i - 1) /\
      tr_channel (nth i (s_tracks s') dtrk) = Z.max 0 (Z.min 15 (Z.of_nat i - 1))).
 Proof.
-  intros s' old. unfold s', change_cur_track. cbn [s_cur s_tracks s_set_cur s_set_tracks].
-  rewrite add_tracks_seq. fold old.
-  assert (Hlen : length (s_tracks s ++ map (default_track (s_timebase s)) (seq old (S n - old))) = Nat.max old (S n))
-    by (rewrite app_length, map_length, seq_length; fold old; lia).
+  intros s' s0 old. destruct (settle_octave_once_law s) as [_ [_ [L0 [O0 _]]]]. fold s0 in L0, O0.
+  assert (Htb : s_timebase s0 = s_timebase s) by (unfold s0, settle_octave_once; destruct (_ =? _); reflexivity).
+  unfold s', change_cur_track. fold s0. cbn [s_cur s_tracks s_set_cur s_set_tracks].
+  rewrite add_tracks_seq, L0, Htb. fold old.
+  assert (Hlen : length (s_tracks s0 ++ map (default_track (s_timebase s)) (seq old (S n - old))) = Nat.max old (S n))
+    by (rewrite app_length, map_length, seq_length, L0; fold old; lia).
   split; [reflexivity|]. split; [unfold cur_ok; cbn [s_cur s_tracks s_set_cur s_set_tracks]; rewrite Hlen; lia|].
-  split; [reflexivity|]. split; [reflexivity|]. split; [exact Hlen|]. split.
-  - intros i Hi. apply app_nth1. exact Hi.
-  - intros i [Hlo Hhi]. rewrite Hlen in Hhi.
-    rewrite app_nth2 by exact Hlo. fold old.
-    assert (Hi : (i - old < length (seq old (S n - old)))%nat) by (rewrite seq_length; lia).
-    rewrite (nth_indep _ dtrk (default_track (s_timebase s) 0)) by (rewrite map_length; exact Hi).
-    rewrite map_nth. rewrite seq_nth by (rewrite seq_length in Hi; exact Hi).
-    replace (old + (i - old))%nat with i by lia. unfold default_track. split; [reflexivity|apply track_new_channel].
+  split; [reflexivity|]. split; [reflexivity|]. split; [exact Hlen|].
+  assert (Hold : forall i, (i < old)%nat ->
+            nth i (s_tracks s0 ++ map (default_track (s_timebase s)) (seq old (S n - old))) dtrk = nth i (s_tracks s0) dtrk)
+    by (intros i Hi; apply app_nth1; rewrite L0; exact Hi).
+  split; [exact Hold|]. split; [intros i Hi Hne; rewrite (Hold i Hi); apply O0; exact Hne|].
+  intros i [Hlo Hhi]. rewrite Hlen in Hhi.
+  rewrite app_nth2 by (rewrite L0; exact Hlo). rewrite L0. fold old.
+  assert (Hi : (i - old < length (seq old (S n - old)))%nat) by (rewrite seq_length; lia).
+  rewrite (nth_indep _ dtrk (default_track (s_timebase s) 0)) by (rewrite map_length; exact Hi).
+  rewrite map_nth. rewrite seq_nth by (rewrite seq_length in Hi; exact Hi).
+  replace (old + (i - old))%nat with i by lia. unfold default_track. split; [reflexivity|apply track_new_channel].
 Qed.
 
-Lemma change_cur_track_existing s n : (n < length (s_tracks s))%nat -> change_cur_track s n = s_set_cur s n.
+Lemma change_cur_track_existing s n : (n < length (s_tracks s))%nat ->
+  change_cur_track s n = s_set_cur (settle_octave_once s) n.
 Proof.
-  intros H. unfold change_cur_track. replace (S n - length (s_tracks s))%nat with O by lia.
+  intros H. unfold change_cur_track. destruct (settle_octave_once_law s) as [_ [_ [L0 _]]]. rewrite L0.
+  replace (S n - length (s_tracks s))%nat with O by lia.
   cbn [add_tracks]. rewrite s_set_tracks_same. reflexivity.
 Qed.
 
+Lemma change_cur_track_settled s n : s_octave_once (change_cur_track s n) = 0.
+Proof.
+  unfold change_cur_track. cbn [s_octave_once s_set_cur s_set_tracks]. apply (settle_octave_once_law s).
+Qed.
+
 (* whatever order the tracks are first used in: after any sequence of track switches the tracks beyond
-   the original ones are the default tracks of their own numbers *)
+   the original ones are the default tracks of their own numbers (the original ones are unchanged, except
+   that an octave-once pending at the first switch is undone on the track it was written on) *)
 Theorem change_cur_track_any_order ns : forall s,
   let s' := fold_left change_cur_track ns s in
-  exists k, s_tracks s' = s_tracks s ++ map (default_track (s_timebase s)) (seq (length (s_tracks s)) k) /\
-            s_timebase s' = s_timebase s.
+  exists k l0, s_tracks s' = l0 ++ map (default_track (s_timebase s)) (seq (length (s_tracks s)) k) /\
+               length l0 = length (s_tracks s) /\ (s_octave_once s = 0 -> l0 = s_tracks s) /\
+               s_timebase s' = s_timebase s.
 Proof.
   induction ns as [|n ns IH]; intros s; cbn [fold_left].
-  - exists O. cbn [seq map]. rewrite app_nil_r. split; reflexivity.
-  - destruct (IH (change_cur_track s n)) as [k [Ht Hb]].
+  - exists O, (s_tracks s). cbn [seq map]. rewrite app_nil_r. repeat split; reflexivity.
+  - destruct (IH (change_cur_track s n)) as [k [l1 [Ht [Hl1 [Hz Hb]]]]].
+    specialize (Hz (change_cur_track_settled s n)). subst l1.
     destruct (change_cur_track_law s n) as [_ [_ [_ [Hs [Hl _]]]]].
+    destruct (settle_octave_once_law s) as [_ [_ [L0 [_ [_ [_ Hid]]]]]].
     set (old := length (s_tracks s)) in *.
-    exists ((S n - old) + k)%nat. split; [|rewrite Hb; reflexivity].
-    rewrite Ht. change (s_timebase (change_cur_track s n)) with (s_timebase s).
-    rewrite Hl. rewrite Hs at 1. rewrite <- app_assoc, <- map_app. f_equal. f_equal.
+    assert (Htb : s_timebase (change_cur_track s n) = s_timebase s)
+      by (unfold change_cur_track, settle_octave_once; destruct (_ =? _); reflexivity).
+    exists ((S n - old) + k)%nat, (s_tracks (settle_octave_once s)).
+    split; [|split; [exact L0|split; [intros Ho; rewrite (Hid Ho); reflexivity|rewrite Hb; exact Htb]]].
+    rewrite Ht, Htb, Hl. rewrite Hs at 1. rewrite <- app_assoc, <- map_app. f_equal. f_equal.
     rewrite seq_app. f_equal. f_equal. lia.
 Qed.
 
@@ -130,14 +168,16 @@ Qed.
 Theorem step_frame ec t s s' : track_local t = true -> step_song ec t s = Ok s' -> frame_rel s s'.
 Proof.
   destruct t; cbn [track_local]; try discriminate; intros _; cbn [step_song];
-    try (intros E; injection E as <-; frame_leaf).
-  - apply emit_note_frame.
-  - apply emit_note_frame.
-  - intros E; injection E as <-. unfold exec_rest. frame_leaf.
-  - destruct (ino >? 0); [discriminate|]. intros E; injection E as <-; frame_leaf.
-  - intros E; injection E as <-. unfold exec_harmony_end. destruct (s_harmony_flag s); [frame_leaf|].
-    split; [reflexivity|]. split; [reflexivity|]. split; reflexivity.
-  - intros E; injection E as <-. unfold exec_voice. destruct args as [|a [|b r]]; frame_leaf.
+  first
+  [ solve [intros E; injection E as <-; frame_leaf]
+  | solve [apply emit_note_frame]
+  | solve [unfold exec_rest, exec_harmony_end, exec_voice;
+           repeat match goal with
+                  | |- context [if ?b then _ else _] => destruct b
+                  | |- context [match ?a with [] => _ | _ => _ end] => destruct a as [|a0 [|a1 ar]]
+                  end;
+           try discriminate; intros E; injection E as <-;
+           first [frame_leaf | (split; [reflexivity|]; split; [reflexivity|]; split; reflexivity)]] ].
 Qed.
 
 (* the other tracks replaced by anything: l2 is any track list that has the same current track *)
@@ -157,7 +197,7 @@ Proof. intros [_ [_ H]]. exact H. Qed.
 Ltac indep_leaf Hs :=
   destruct Hs as [Hc [Hc2 Hn]]; unfold lift; f_equal; apply song_eq; [reflexivity|];
   unfold cur_track in *;
-  cbn [s_tracks s_cur upd_cur s_set_tracks s_set_harmony s_set_octave_once] in *;
+  cbn [s_tracks s_cur s_timebase upd_cur s_set_tracks s_set_harmony s_set_octave_once] in *;
   rewrite ?upd_nth_upd_nth; rewrite ?nth_upd_nth_eq by exact Hc;
   match goal with
   | |- upd_nth ?c ?F ?l = _ => rewrite (upd_nth_const F dtrk l c); rewrite Hn; reflexivity
@@ -170,54 +210,46 @@ Proof.
   intros Hs. unfold emit_note.
   change (s_octave_once (upd_cur (s_set_tracks s l2) (fun t => tr_set_timepos t (tr_timepos t + nl)))) with (s_octave_once s).
   change (s_octave_once (upd_cur s (fun t => tr_set_timepos t (tr_timepos t + nl)))) with (s_octave_once s).
-  destruct b.
-  - destruct (s_octave_once s =? 0).
-    + change (s_harmony_flag (upd_cur (s_set_tracks s l2) (fun t => tr_set_timepos t (tr_timepos t + nl)))) with (s_harmony_flag s).
-      change (s_harmony_flag (upd_cur s (fun t => tr_set_timepos t (tr_timepos t + nl)))) with (s_harmony_flag s).
-      destruct (s_harmony_flag s); [indep_leaf Hs|].
-      assert (Ht : cur_track (upd_cur (s_set_tracks s l2) (fun t => tr_set_timepos t (tr_timepos t + nl)))
-                   = cur_track (upd_cur s (fun t => tr_set_timepos t (tr_timepos t + nl)))).
-      { destruct Hs as [Hc [Hc2 Hn]]. rewrite (cur_track_upd_cur s _ Hc).
-        unfold cur_track at 1, upd_cur. cbn [s_tracks s_cur s_set_tracks]. rewrite nth_upd_nth_eq by exact Hc2. rewrite Hn. reflexivity. }
-      rewrite Ht. destruct (_ || _); [reflexivity|]. indep_leaf Hs.
-    + set (F := fun t => tr_set_timepos t (tr_timepos t + nl)).
-      set (G := fun t => tr_set_octave t (tr_octave t - s_octave_once s)).
-      change (s_harmony_flag (s_set_octave_once (upd_cur (upd_cur (s_set_tracks s l2) F) G) 0)) with (s_harmony_flag s).
-      change (s_harmony_flag (s_set_octave_once (upd_cur (upd_cur s F) G) 0)) with (s_harmony_flag s).
-      destruct (s_harmony_flag s); [indep_leaf Hs|].
-      assert (Ht : cur_track (s_set_octave_once (upd_cur (upd_cur (s_set_tracks s l2) F) G) 0)
-                   = cur_track (s_set_octave_once (upd_cur (upd_cur s F) G) 0)).
-      { destruct Hs as [Hc [Hc2 Hn]]. unfold cur_track, upd_cur. cbn [s_tracks s_cur s_set_tracks s_set_octave_once].
-        rewrite !upd_nth_upd_nth. rewrite nth_upd_nth_eq by exact Hc2. rewrite nth_upd_nth_eq by exact Hc.
-        unfold cur_track in Hn. rewrite Hn. reflexivity. }
-      rewrite Ht. destruct (_ || _); [reflexivity|]. indep_leaf Hs.
-  - destruct (slur >=? 1); [reflexivity|]. indep_leaf Hs.
+  destruct b; [|indep_leaf Hs].
+  destruct (s_octave_once s =? 0).
+  - change (s_harmony_flag (upd_cur (s_set_tracks s l2) (fun t => tr_set_timepos t (tr_timepos t + nl)))) with (s_harmony_flag s).
+    change (s_harmony_flag (upd_cur s (fun t => tr_set_timepos t (tr_timepos t + nl)))) with (s_harmony_flag s).
+    destruct (s_harmony_flag s); [indep_leaf Hs|].
+    destruct (slur >=? 1); [indep_leaf Hs|].
+    assert (Ht : cur_track (upd_cur (s_set_tracks s l2) (fun t => tr_set_timepos t (tr_timepos t + nl)))
+                 = cur_track (upd_cur s (fun t => tr_set_timepos t (tr_timepos t + nl)))).
+    { destruct Hs as [Hc [Hc2 Hn]]. rewrite (cur_track_upd_cur s _ Hc).
+      unfold cur_track at 1, upd_cur. cbn [s_tracks s_cur s_set_tracks]. rewrite nth_upd_nth_eq by exact Hc2. rewrite Hn. reflexivity. }
+    rewrite Ht. destruct (negb _); indep_leaf Hs.
+  - set (F := fun t => tr_set_timepos t (tr_timepos t + nl)).
+    set (G := fun t => tr_set_octave t (tr_octave t - s_octave_once s)).
+    change (s_harmony_flag (s_set_octave_once (upd_cur (upd_cur (s_set_tracks s l2) F) G) 0)) with (s_harmony_flag s).
+    change (s_harmony_flag (s_set_octave_once (upd_cur (upd_cur s F) G) 0)) with (s_harmony_flag s).
+    destruct (s_harmony_flag s); [indep_leaf Hs|].
+    destruct (slur >=? 1); [indep_leaf Hs|].
+    assert (Ht : cur_track (s_set_octave_once (upd_cur (upd_cur (s_set_tracks s l2) F) G) 0)
+                 = cur_track (s_set_octave_once (upd_cur (upd_cur s F) G) 0)).
+    { destruct Hs as [Hc [Hc2 Hn]]. unfold cur_track, upd_cur. cbn [s_tracks s_cur s_set_tracks s_set_octave_once].
+      rewrite !upd_nth_upd_nth. rewrite nth_upd_nth_eq by exact Hc2. rewrite nth_upd_nth_eq by exact Hc.
+      unfold cur_track in Hn. rewrite Hn. reflexivity. }
+    rewrite Ht. destruct (negb _); indep_leaf Hs.
 Qed.
 
 Theorem step_indep ec t s l2 : track_local t = true -> same_cur s l2 ->
   step_song ec t (s_set_tracks s l2) = lift s l2 (step_song ec t s).
 Proof.
   intros Ht Hs. pose proof (cur_track_swap s l2 Hs) as Hct.
-  destruct t; cbn [track_local] in Ht; try discriminate; cbn [step_song].
-  - unfold exec_note, note_number, key_flag_at. rewrite Hct.
-    cbn [s_timebase s_use_key_shift s_key_flag s_key_shift s_set_tracks]. apply emit_note_indep. exact Hs.
-  - unfold exec_note_n. rewrite Hct. cbn [s_timebase s_key_shift s_set_tracks]. apply emit_note_indep. exact Hs.
-  - unfold exec_rest. cbn [s_timebase s_set_tracks]. indep_leaf Hs.
-  - cbn [s_timebase s_set_tracks]. indep_leaf Hs.
-  - indep_leaf Hs.
-  - indep_leaf Hs.
-  - cbn [s_octave_once s_set_tracks]. indep_leaf Hs.
-  - destruct (ino >? 0); [reflexivity|]. indep_leaf Hs.
-  - cbn [s_v_add s_set_tracks]. indep_leaf Hs.
-  - indep_leaf Hs.
-  - cbn [s_q_add s_set_tracks]. indep_leaf Hs.
-  - indep_leaf Hs.
-  - rewrite Hct. cbn [s_harmony_events s_set_tracks]. indep_leaf Hs.
-  - unfold exec_harmony_end. cbn [s_harmony_flag s_harmony_time s_harmony_events s_timebase s_set_tracks].
-    rewrite Hct. destruct (s_harmony_flag s); indep_leaf Hs.
-  - indep_leaf Hs.
-  - unfold exec_voice. rewrite Hct. destruct args as [|a [|b r]]; indep_leaf Hs.
-  - indep_leaf Hs.
+  destruct t; cbn [track_local] in Ht; try discriminate; cbn [step_song];
+  first
+  [ solve [unfold exec_note, exec_note_n, note_number, key_flag_at; rewrite ?Hct;
+           cbn [s_timebase s_use_key_shift s_key_flag s_key_shift s_set_tracks]; apply emit_note_indep; exact Hs]
+  | solve [unfold exec_rest, exec_harmony_end, exec_voice; rewrite ?Hct;
+           cbn [s_timebase s_octave_once s_v_add s_q_add s_harmony_flag s_harmony_time s_harmony_events s_set_tracks];
+           repeat match goal with
+                  | |- context [if ?b then _ else _] => destruct b
+                  | |- context [match ?a with [] => _ | _ => _ end] => destruct a as [|a0 [|a1 ar]]
+                  end;
+           first [reflexivity | indep_leaf Hs]] ].
 Qed.
 
 (* ------------------------------------------------------------------------------------------------ *)
@@ -289,34 +321,12 @@ Definition globals_eq (a b : song) : Prop := s_set_cur (s_set_tracks a []) 0 = s
 Lemma globals_swap a b k : globals_eq a b -> s_set_cur a k = s_set_tracks (s_set_cur b k) (s_tracks a).
 Proof. unfold globals_eq. destruct a, b; cbn. intros H. injection H. intros. subst. reflexivity. Qed.
 
-(* the Track arm: a pending octave-once is undone on the track it was written on, then the track is switched *)
-Definition settle_octave_once (s : song) : song :=
-  if s_octave_once s =? 0 then s
-  else s_set_octave_once (upd_cur s (fun t => tr_set_octave t (tr_octave t - s_octave_once s))) 0.
-
-Lemma settle_octave_once_law s :
-  let s1 := settle_octave_once s in
-  s_octave_once s1 = 0 /\ s_cur s1 = s_cur s /\ length (s_tracks s1) = length (s_tracks s) /\
-  (forall i, i <> s_cur s -> nth i (s_tracks s1) dtrk = nth i (s_tracks s) dtrk) /\
-  (cur_ok s -> cur_track s1 = tr_set_octave (cur_track s) (tr_octave (cur_track s) - s_octave_once s)) /\
-  s_set_octave_once (s_set_tracks s1 []) 0 = s_set_octave_once (s_set_tracks s []) 0.
-Proof.
-  unfold settle_octave_once. destruct (Z.eqb_spec (s_octave_once s) 0) as [E|E].
-  - repeat split; try assumption; try reflexivity. intros Hc. rewrite E, Z.sub_0_r. destruct (cur_track s); reflexivity.
-  - split; [reflexivity|]. split; [reflexivity|].
-    split; [cbn [s_tracks s_set_octave_once upd_cur s_set_tracks]; apply upd_nth_length|].
-    split; [intros i Hi; cbn [s_tracks s_set_octave_once]; apply upd_cur_other; exact Hi|].
-    split; [|reflexivity]. intros Hc. unfold cur_track at 1. cbn [s_tracks s_cur s_set_octave_once].
-    exact (cur_track_upd_cur s (fun t => tr_set_octave t (tr_octave t - s_octave_once s)) Hc).
-Qed.
-
+(* the Track arm on an existing track: settle a pending octave-once on the old track, then switch *)
 Lemma step_track_gen ec s i : (i < length (s_tracks s))%nat -> (i <= 999)%nat ->
   step_song ec (TTrack (Z.of_nat i)) s = Ok (s_set_cur (settle_octave_once s) i).
 Proof.
   intros H1 H2. cbn [step_song]. destruct (Z.ltb_spec (Z.of_nat i) 0); [lia|]. destruct (Z.gtb_spec (Z.of_nat i) 999); [lia|].
-  cbn [orb]. rewrite Nat2Z.id. fold (settle_octave_once s).
-  rewrite change_cur_track_existing; [reflexivity|].
-  destruct (settle_octave_once_law s) as [_ [_ [L _]]]. rewrite L. exact H1.
+  cbn [orb]. rewrite Nat2Z.id. rewrite change_cur_track_existing by exact H1. reflexivity.
 Qed.
 
 Lemma step_track ec s i : (i < length (s_tracks s))%nat -> (i <= 999)%nat -> s_octave_once s = 0 ->
@@ -408,30 +418,31 @@ Lemma emit_note_hnorm s ev nl b slur : s_harmony_flag s = false ->
   hnorm_res (emit_note (s_set_harmony s false 0 (s_harmony_events s)) ev nl b slur) = hnorm_res (emit_note s ev nl b slur).
 Proof.
   intros F. unfold emit_note, cur_track.
-  cbn [s_harmony_flag s_harmony_events s_harmony_time s_octave_once s_tracks s_cur upd_cur s_set_tracks s_set_harmony
+  cbn [s_harmony_flag s_harmony_events s_harmony_time s_octave_once s_timebase s_tracks s_cur upd_cur s_set_tracks s_set_harmony
        s_set_octave_once].
-  destruct b.
-  - destruct (s_octave_once s =? 0);
-      cbn [s_harmony_flag s_harmony_events s_harmony_time s_octave_once s_tracks s_cur upd_cur s_set_tracks s_set_harmony
-           s_set_octave_once]; rewrite ?F;
-      destruct (_ || _); try reflexivity; hnorm_leaf F.
-  - destruct (slur >=? 1); [reflexivity|]. hnorm_leaf F.
+  destruct b; [|hnorm_leaf F].
+  destruct (s_octave_once s =? 0);
+    cbn [s_harmony_flag s_harmony_events s_harmony_time s_octave_once s_timebase s_tracks s_cur upd_cur s_set_tracks s_set_harmony
+         s_set_octave_once]; rewrite ?F;
+    (destruct (slur >=? 1); [hnorm_leaf F|]); destruct (negb _); hnorm_leaf F.
 Qed.
 
 Theorem step_hnorm ec t s : track_local t = true ->
   hnorm_res (step_song ec t (hnorm s)) = hnorm_res (step_song ec t s).
 Proof.
   intros Ht. unfold hnorm at 1. destruct (s_harmony_flag s) eqn:F; [reflexivity|].
-  destruct t; cbn [track_local] in Ht; try discriminate; cbn [step_song]; try hnorm_leaf F.
-  - unfold exec_note, note_number, key_flag_at.
-    cbn [s_timebase s_use_key_shift s_key_flag s_key_shift s_tracks s_cur s_set_harmony cur_track].
-    apply emit_note_hnorm. exact F.
-  - unfold exec_note_n. cbn [s_timebase s_key_shift s_tracks s_cur s_set_harmony cur_track].
-    apply emit_note_hnorm. exact F.
-  - unfold exec_rest. hnorm_leaf F.
-  - destruct (ino >? 0); [reflexivity|]. hnorm_leaf F.
-  - unfold exec_harmony_end. cbn [s_harmony_flag s_set_harmony]. rewrite F. hnorm_leaf F.
-  - unfold exec_voice. destruct args as [|a [|b r]]; hnorm_leaf F.
+  destruct t; cbn [track_local] in Ht; try discriminate; cbn [step_song];
+  first
+  [ solve [hnorm_leaf F]
+  | solve [unfold exec_note, exec_note_n, note_number, key_flag_at;
+           cbn [s_timebase s_use_key_shift s_key_flag s_key_shift s_tracks s_cur s_set_harmony cur_track];
+           apply emit_note_hnorm; exact F]
+  | solve [unfold exec_rest, exec_harmony_end, exec_voice; cbn [s_harmony_flag s_set_harmony]; rewrite ?F;
+           repeat match goal with
+                  | |- context [if ?b then _ else _] => destruct b
+                  | |- context [match ?a with [] => _ | _ => _ end] => destruct a as [|a0 [|a1 ar]]
+                  end;
+           first [reflexivity | hnorm_leaf F]] ].
 Qed.
 
 Lemma fold_hnorm_res ec A : local_block A -> forall r1 r2,
